@@ -61,3 +61,5 @@ SPEC = {'id': 'C16',
              'net/url.Parse output (hostname, scheme) is the input of the relay-URL model (C06)'],
  'assumptions': ['timers eventually fire (time is abstracted: the timeout arm is always enabled)',
                  'a single poll loop (SnowflakeProxy.Start) per process']}
+
+SPEC['thorough_passes'] = 3  # the thorough tier runs the whole harness under this many consecutive seeds
